@@ -419,4 +419,49 @@ impl GhostQueue {
     pub open spec fn contains_hash(&self, h: u64) -> bool { self.capacity > 0 ==> self.counts@.contains(h) }
 }
 
+
+// =====================================================================================================
+// Lfu::pop (w-TinyLFU, C14), the choice of the victim: the front of the window and the front of probation compete by
+// their sketch estimates -- the LOWER estimate is evicted, a tie goes to probation; with one of the two queues empty the
+// other one's front is the victim; the protected queue is touched only when both are empty. The intrusive queues and
+// their cursors are stand-ins (a cursor reports / removes the front it was created on); the count-min sketch is an
+// uninterpreted function of the hash.
+// =====================================================================================================
+pub struct LRec { pub id: Ghost<int>, pub h: u64, pub w: usize }
+impl LRec { pub fn hash(&self) -> (r: u64) ensures r == self.h { self.h } pub fn weight(&self) -> (r: usize) ensures r == self.w { self.w } }
+pub struct SketchT { }
+pub uninterp spec fn spec_estimate(h: u64) -> u16;
+pub struct CursorT { pub front: Option<LRec> }
+impl CursorT {
+    pub fn get(&self) -> (r: Option<&LRec>) ensures r.is_some() == self.front.is_some(), r.is_some() ==> *r.unwrap() == self.front.unwrap() { self.front.as_ref() }
+    #[verifier::external_body]
+    pub fn remove(&mut self) -> (r: Option<LRec>) ensures r == old(self).front { unimplemented!() }
+}
+pub struct LQueueT { pub front: Option<LRec> }
+impl LQueueT {
+    #[verifier::external_body]
+    pub fn front_mut(&mut self) -> (r: CursorT) ensures r.front == old(self).front, final(self).front == old(self).front { unimplemented!() }
+    #[verifier::external_body]
+    pub fn pop_front(&mut self) -> (r: Option<LRec>) ensures r == old(self).front { unimplemented!() }
+}
+pub struct LfuT { pub window: LQueueT, pub probation: LQueueT, pub protected: LQueueT, pub frequencies: SketchT }
+impl LfuT {
+    #[verifier::external_body]
+    fn estimate_frequency(frequencies: &SketchT, hash: u64) -> (r: u16) ensures r == spec_estimate(hash) { unimplemented!() }
+//@region foyer-memory/src/eviction/lfu.rs :: impl~^impl<K, V, P> Eviction for Lfu<K, V, P>/fn pop name=lfu_pop_choice start=/let mut cw = / stmts=3 rules=option-or-else sub=@Self::estimate_frequency@LfuT::estimate_frequency@
+//@head
+    fn lfu_pop_choice(&mut self) -> (r: Option<LRec>)
+        ensures
+            ({
+                let w = old(self).window.front; let p = old(self).probation.front; let q = old(self).protected.front;
+                &&& (w is None && p is None ==> r == q) // @label protected_queue_is_touched_only_when_window_and_probation_are_empty
+                &&& (w is None && p is Some ==> r == p)
+                &&& (w is Some && p is None ==> r == w)
+                &&& (w is Some && p is Some ==> r == (if spec_estimate(w.unwrap().h) < spec_estimate(p.unwrap().h) { w } else { p }))
+            }), // @label the_front_with_the_lower_sketch_estimate_is_evicted_ties_go_to_probation
+//@tail
+        Some(record)
+//@end
+}
+
 } // verus!
